@@ -40,6 +40,8 @@ pub struct Obs {
     /// after a second setup on a fully populated world
     pub setups2: Option<Vec<u32>>,
     pub disposes: Option<Vec<u32>>,
+    /// how often each system ran in one `RunNow::run_now` of the dispatcher (C12: the thread-local ones too)
+    pub runs_by_run_now: Option<Vec<u32>>,
     /// the same counters when the dispatcher is set up and disposed through its `RunNow` implementation
     /// (which is how it is driven when it is registered as a thread-local system of another dispatcher)
     pub setups_via_run_now: Option<Vec<u32>>,
@@ -172,6 +174,15 @@ pub fn observe(ops: &[Op], resmap: &[u8], need: Need) -> Obs {
         }
         o.disposes = Some(ctx.disposes.lock().unwrap().clone());
     } else if need.sendable {
+        {
+            let before = ctx.runs.lock().unwrap().clone();
+            let r = catch_unwind(AssertUnwindSafe(|| shred::RunNow::run_now(&mut d, &world)));
+            if r.is_ok() {
+                let after = ctx.runs.lock().unwrap().clone();
+                o.runs_by_run_now = Some(after.iter().zip(before.iter()).map(|(a, b)| a - b).collect());
+            }
+            ctx.take_log();
+        }
         o.sendable = Some(match d.try_into_sendable() {
             Ok(sd) => Ok(sd.verif_layout()),
             Err(_) => Err(()),
